@@ -10,6 +10,7 @@ from hv.ref import raw
 
 ID = "C16"
 RULE = ("G-sim traces with a small operator vocabulary (names repeat at several depths; 'aten::add' is a substring of 'aten::addmm'), "
+        "operator names with regular-expression metacharacters (python frames 'model.py(42): forward', 'block.1' next to 'block11', 'fn[0]', 'a+b'), 1-3 ranks with queries switching between ranks, "
         "1-3 host threads without autograd thread, 1-4 streams, zero-duration kernels, launches without kernel, dropped launches / "
         "kernels, >127 events; for 2-4 operator names in sequence ON THE SAME TraceAnalysis object (the call graph is rebuilt each "
         "time), min_pattern_len in {1,2,3,5}, top_k in {1,5}: get_frequent_cuda_kernel_sequences vs. patterns recomputed from first "
@@ -22,22 +23,38 @@ ASSUMPTIONS = ["well-formed, K1-free traces; no autograd thread (backward re-par
                "matching = the operator name contains the query string (documented)"]
 PLAN = {"quick": {"shards": 16, "cases": 320, "timeout": 900}, "thorough": {"shards": 16, "cases": 4000, "timeout": 3400}}
 FLOORS = {"quick": {"distinct_nontrivial": 80, "queries": 450, "patterns_judged": 600, "name_at_several_depths": 100, "instance_below_threshold": 150,
-                    "second_or_later_query_on_same_object": 250, "empty_results": 30, "traces_gt_127_events": 60},
+                    "second_or_later_query_on_same_object": 250, "empty_results": 30, "traces_gt_127_events": 60,
+                    "rank_switches_between_queries": 80, "queries_with_regex_metacharacters": 60},
           "thorough": {"distinct_nontrivial": 1500, "queries": 9000, "patterns_judged": 16000, "name_at_several_depths": 2000,
-                       "instance_below_threshold": 3000, "second_or_later_query_on_same_object": 5000, "empty_results": 600, "traces_gt_127_events": 1200}}
+                       "instance_below_threshold": 3000, "second_or_later_query_on_same_object": 5000, "empty_results": 600, "traces_gt_127_events": 1200,
+                       "rank_switches_between_queries": 1500, "queries_with_regex_metacharacters": 1200}}
+
+
+META_OPS = ["model.py(42): forward", "block.1", "block11", "aten::add.Tensor", "fn[0]", "a+b", "c*d", "x|y", "^hat$", "back\\slash", "q?"]
+META_QUERIES = ["model.py(42): forward", "(42)", "block.1", "block1", "add.Tensor", "fn[0]", "[0]", "a+b", "+", "c*", "x|y", "|", "^hat$", "^", "$", "back\\", "q?", "."]
 
 
 def gen_case(rnd, tier: str, i: Any) -> Dict[str, Any]:
     n_steps = rnd.choice([0, 1, 2, 3, 4])
-    p = gen_sim.random_params(rnd, tier, rank=0, n_steps=n_steps, autograd=False, avoid_k1=True, repeat_names=True,
-                              max_depth=rnd.choice([3, 5]), ops_per_step=rnd.choice([(3, 8), (6, 12), (6, 12)]), n_threads=rnd.choice([1, 1, 2]),
-                              p_sync=rnd.choice([0.0, 0.1]), p_event=0.0, p_leaf_children=rnd.choice([(0, 3), (1, 4), (2, 5)]), pre_ops=rnd.choice([1, 3]))
-    p["ops_pool"] = rnd.sample(["aten::mm", "aten::add", "aten::addmm", "aten::linear", "aten::copy_"], rnd.randint(2, 4))
-    tr = gen_sim.gen_trace(rnd, **p)
-    gen_sim.drop_events(rnd, tr, p_launch=rnd.choice([0, 0, 0.1]), p_kernel=rnd.choice([0, 0, 0.1]))
-    names = p["ops_pool"] * 3 + ["cudaLaunchKernel", "aten::nonexistent", "ProfilerStep", "aten::"]
-    qs = [{"op": rnd.choice(names), "min_len": rnd.choice([1, 1, 1, 2, 2, 3, 5]), "top_k": rnd.choice([1, 5])} for _ in range(rnd.randint(2, 4))]
-    return {"files": {"rank0.json": tr}, "queries": qs}
+    n_ranks = rnd.choice([1, 1, 2, 3])
+    meta = rnd.random() < 0.35           # operator names with regular-expression metacharacters (python frames, overload names)
+    pool = rnd.sample(["aten::mm", "aten::add", "aten::addmm", "aten::linear", "aten::copy_"], rnd.randint(2, 4))
+    if meta:
+        pool = pool[:2] + rnd.sample(META_OPS, rnd.randint(2, 4))
+    first_step = rnd.randint(1, 500)
+    files = {}
+    for r in range(n_ranks):
+        p = gen_sim.random_params(rnd, tier, rank=r, n_steps=n_steps, first_step=first_step, autograd=False, avoid_k1=True, repeat_names=True,
+                                  max_depth=rnd.choice([3, 5]), ops_per_step=rnd.choice([(3, 8), (6, 12), (6, 12)]), n_threads=rnd.choice([1, 1, 2]),
+                                  p_sync=rnd.choice([0.0, 0.1]), p_event=0.0, p_leaf_children=rnd.choice([(0, 3), (1, 4), (2, 5)]), pre_ops=rnd.choice([1, 3]))
+        p["ops_pool"] = pool
+        tr = gen_sim.gen_trace(rnd, **p)
+        gen_sim.drop_events(rnd, tr, p_launch=rnd.choice([0, 0, 0.1]), p_kernel=rnd.choice([0, 0, 0.1]))
+        files[f"rank{r}.json"] = tr
+    names = pool * 3 + ["cudaLaunchKernel", "aten::nonexistent", "ProfilerStep", "aten::"] + (rnd.sample(META_QUERIES, 4) if meta else [])
+    qs = [{"op": rnd.choice(names), "min_len": rnd.choice([1, 1, 1, 2, 2, 3, 5]), "top_k": rnd.choice([1, 5]), "rank": rnd.randrange(n_ranks)}
+          for _ in range(rnd.randint(2, 5 if n_ranks > 1 else 4))]
+    return {"files": files, "queries": qs}
 
 
 def expected(kept: List[raw.Ev], link: Dict[int, int], q: Dict[str, Any]):
@@ -98,18 +115,20 @@ def expected(kept: List[raw.Ev], link: Dict[int, int], q: Dict[str, Any]):
 
 def run_case(case: Dict[str, Any], ctx: Any) -> core.CaseResult:
     res = core.CaseResult()
-    tr = case["files"]["rank0.json"]
-    m = raw.model(tr["traceEvents"])
-    why = wf.well_formed(m, tr["traceEvents"])
-    if why:
-        res.discarded, res.discard_reason = True, "not well-formed: " + why.split(":")[0][:50]
-        return res
-    ld = refload.loaded({0: m}, False)
-    kept = ld.kept[0]
-    if not kept:
+    models = {}
+    for fn, tr in case["files"].items():
+        m = raw.model(tr["traceEvents"])
+        why = wf.well_formed(m, tr["traceEvents"])
+        if why:
+            res.discarded, res.discard_reason = True, "not well-formed: " + why.split(":")[0][:50]
+            return res
+        models[tr["distributedInfo"]["rank"]] = m
+    ld = refload.loaded(models, False)
+    if any(not ld.kept[r] for r in models):
         res.discarded, res.discard_reason = True, "nothing left after trimming"
         return res
-    link = raw.link_oracle(m)
+    links = {r: raw.link_oracle(m) for r, m in models.items()}
+    tr = case["files"]["rank0.json"]
     d = ctx.scratch.new("c16")
     outdir = ctx.scratch.new("c16out")
     try:
@@ -117,17 +136,26 @@ def run_case(case: Dict[str, Any], ctx: Any) -> core.CaseResult:
         ok, ta = drv.guard(res, "TraceAnalysis(load)", drv.new_analysis, d)
         if not ok:
             return res
+        kept = ld.kept[0]
         nontrivial = False
         if len(kept) > 127:
             res.counters["traces_gt_127_events"] += 1
+        prev_rank = None
         for k, q in enumerate(case["queries"]):
+            rk = q.get("rank", 0)
+            kept, link = ld.kept[rk], links[rk]
+            if prev_rank is not None and prev_rank != rk:
+                res.counters["rank_switches_between_queries"] += 1
+            prev_rank = rk
+            if any(ch in q["op"] for ch in ".()[]+*?|^$\\"):
+                res.counters["queries_with_regex_metacharacters"] += 1
             exp, info = expected(kept, link, q)
             if isinstance(exp, str):
                 res.counters[f"query_skipped_{exp}"] += 1
                 # still run it: later queries must not be affected by earlier calls on the same object
-                drv.guard(core.CaseResult(), "get_frequent_cuda_kernel_sequences", ta.get_frequent_cuda_kernel_sequences, q["op"], outdir, q["min_len"], 0, q["top_k"], False)
+                drv.guard(core.CaseResult(), "get_frequent_cuda_kernel_sequences", ta.get_frequent_cuda_kernel_sequences, q["op"], outdir, q["min_len"], rk, q["top_k"], False)
                 continue
-            ok, df = drv.guard(res, "get_frequent_cuda_kernel_sequences", ta.get_frequent_cuda_kernel_sequences, q["op"], outdir, q["min_len"], 0, q["top_k"], False)
+            ok, df = drv.guard(res, "get_frequent_cuda_kernel_sequences", ta.get_frequent_cuda_kernel_sequences, q["op"], outdir, q["min_len"], rk, q["top_k"], False)
             res.counters["queries"] += 1
             if k >= 1:
                 res.counters["second_or_later_query_on_same_object"] += 1
